@@ -1217,6 +1217,10 @@ def gen_inputs(rng, p_params, p_attrs, shape, k: int):
 # =========================================================================== NumPy interpreter of the source
 
 
+OPSET_VERSION_OF = {"op": 18, "opset11": 11, "opset12": 12, "opset13": 13, "opset17": 17, "opset18": 18,
+                    "opset19": 19, "opset20": 20, "opset21": 21}
+
+
 class Interp:
     """Reads the function's `ast` as ordinary Python control flow over NumPy arrays, every operator and
     op call denoting the ONNX operator it is documented to map to.  Python literals (and attribute
@@ -1230,8 +1234,11 @@ class Interp:
     class _Break(Exception):
         pass
 
-    def __init__(self, helpers: dict[str, ast.FunctionDef]):
+    def __init__(self, helpers: dict[str, ast.FunctionDef], free: dict | None = None):
         self.helpers = helpers
+        # names the function reads from its surroundings (closure variables / module globals), already
+        # resolved by Python's scoping rule
+        self.free = dict(free or {})
 
     # ---- helpers
     @staticmethod
@@ -1265,8 +1272,24 @@ class Interp:
         return bool(a.reshape(-1)[0]) if a.size == 1 else bool(a)
 
     # ---- operators
-    def op(self, name, args, kw):
+    def op(self, name, args, kw, ver: int = 18):
         f32 = np.float32
+        if name in ("Softmax", "LogSoftmax"):
+            # opset < 13: coerce to 2-D at `axis` (default 1); opset >= 13: along `axis` (default -1) only
+            a = self.promote(args[:1])[0]
+            if ver < 13:
+                ax = int(kw.get("axis", 1))
+                ax = ax + a.ndim if ax < 0 else ax
+                flat = a.reshape(int(np.prod(a.shape[:ax], dtype=np.int64)), -1)
+                red = 1
+            else:
+                ax = int(kw.get("axis", -1))
+                flat, red = a, ax
+            e = np.exp(flat - flat.max(axis=red, keepdims=True))
+            r = e / e.sum(axis=red, keepdims=True)
+            if name == "LogSoftmax":
+                r = np.log(r)
+            return r.reshape(a.shape).astype(a.dtype)
         if name in ("Add", "Sub", "Mul"):
             a, b = self.promote(args)
             fn = {"Add": np.add, "Sub": np.subtract, "Mul": np.multiply}[name]
@@ -1356,6 +1379,8 @@ class Interp:
     def ev(self, e, env):
         if isinstance(e, ast.Name):
             if e.id not in env:
+                if e.id in self.free:
+                    return self.free[e.id]
                 raise NameError(e.id)
             return env[e.id]
         if isinstance(e, ast.Constant):
@@ -1381,7 +1406,8 @@ class Interp:
             kw = {k.arg: self.ev(k.value, env) for k in e.keywords}
             f = e.func
             if isinstance(f, ast.Attribute):
-                return self.op(f.attr, args, kw)
+                alias = f.value.id if isinstance(f.value, ast.Name) else "op"
+                return self.op(f.attr, args, kw, OPSET_VERSION_OF.get(alias, 18))
             if isinstance(f, ast.Name) and f.id in self.helpers:
                 r = self.call(self.helpers[f.id], [self.default_tensor(a) for a in args], kw)
                 return r[0] if len(r) == 1 else tuple(r)
@@ -1468,11 +1494,195 @@ def _is_attr_param(a: ast.arg) -> bool:
     return a.annotation is not None and ast.unparse(a.annotation) in ("float", "int", "bool", "str")
 
 
-def numpy_run(src: str, feeds: dict, attrs: dict, param_order: list[str]):
+def numpy_run(src: str, feeds: dict, attrs: dict, param_order: list[str], free: dict | None = None):
     """Outputs (list of np arrays) of reading `src` as plain Python over NumPy."""
     tree = ast.parse(src)
     fn = next(n for n in tree.body if isinstance(n, ast.FunctionDef))
     helpers = {n.name: n for n in ast.parse(HELPERS_SRC).body if isinstance(n, ast.FunctionDef)}
-    it = Interp(helpers)
+    it = Interp(helpers, free)
     with np.errstate(all="ignore"):
         return it.call(fn, [feeds[n] for n in param_order], dict(attrs))
+
+
+# =========================================================================== script functions made by factories
+#
+# `script()` resolves the free names of a function in `module globals updated with closure nonlocals`.  These
+# programs read Python constants from enclosing functions (one or two levels) and from the module, with and
+# without a module global of the same name as a closure variable.
+
+
+def py_value_repr(kind: str, v) -> str:
+    if kind == "array":
+        return f"np.array({list(v)!r}, dtype=np.float32)"
+    return repr(v)
+
+
+def free_value(kind: str, v):
+    """The value as the NumPy reading of the source sees it."""
+    if kind in ("array", "list"):
+        return np.array(v, dtype=np.float32)
+    return v
+
+
+def closure_program(rng, name: str) -> dict:
+    """A script function reading 1-3 names from its surroundings.  Returns the program's meta record."""
+    pool = ["gain", "bias", "scale", "shift"]
+    rng.shuffle(pool)
+    nfree = rng.randint(1, 3)
+    frees = []
+    levels = 2 if rng.random() < 0.35 else 1
+    for base in pool[:nfree]:
+        nm = f"{base}_{name}"
+        where = rng.choice(["closure", "shadow", "shadow", "global"] + (["outer", "outer-shadow"] if levels == 2 else []))
+        kind = rng.choice(["float", "float", "int", "array", "list"])
+        if kind == "float":
+            v, other = rng.choice([3.0, 0.5, -1.5, 2.25]), rng.choice([10.0, -4.0, 7.5])
+        elif kind == "int":
+            v, other = rng.choice([2, 3, -1]), rng.choice([10, 5, -7])
+        else:
+            v, other = [1.0, 2.0, 3.0], [10.0, 20.0, 30.0]
+        frees.append({"name": nm, "where": where, "kind": kind, "value": v, "other": other})
+    ks = [f["name"] for f in frees]
+    scalars = [f["name"] for f in frees if f["kind"] in ("float", "int")]
+    k = lambda: rng.choice(ks)
+    body = [f"x = {rng.choice([f'op.Mul(A, {k()})', f'(A * {k()})', f'op.Add(A, {k()})', f'(A - {k()})'])}"]
+    feats = {"closure", "closure-levels-%d" % levels}
+    for _ in range(rng.randint(1, 3)):
+        r = rng.random()
+        if r < 0.4:
+            body.append(f"x = {rng.choice([f'op.Add(x, {k()})', f'(x * {k()})', f'op.Sub(x, {k()})', f'(x + {k()})'])}")
+        elif r < 0.7:
+            thr = rng.choice(scalars) if scalars and rng.random() < 0.6 else rng.choice(["1.0", "4.0"])
+            body += [f"if (op.ReduceSum(x, keepdims=0) > {thr}):", f"    x = op.Add(x, B)", "else:", f"    x = (x * {k()})"]
+            feats.add("closure-in-branch")
+        else:
+            body += ["for i in range(2):", f"    x = {rng.choice([f'op.Add(x, {k()})', f'(x * {k()})'])}"]
+            feats.add("closure-in-loop")
+    for u in ks:  # every free name is read
+        if not any(u in ln for ln in body):
+            body.append(f"x = op.Add(x, {u})")
+    body.append("return x")
+    src = "@script(default_opset=op)\n" + f"def {name}(A: FLOAT[3], B: FLOAT[3]):\n" + "".join(f"    {ln}\n" for ln in body)
+    for f in frees:
+        feats.add("closure-" + f["where"])
+        feats.add("closure-value-" + f["kind"])
+    return {"name": name, "shape": [3], "params": [["A", "T"], ["B", "T"]], "attrs": [], "rets": [["x", "T"]],
+            "src": src, "features": sorted(feats), "wrap": {"levels": levels, "free": frees}}
+
+
+def wrapped_source(m: dict) -> str:
+    """Source placed in the module for a program made by a factory (`m["wrap"]`), else `m["src"]`."""
+    w = m.get("wrap")
+    if not w:
+        return m["src"]
+    name = m["name"]
+    lines = []
+    inner_args, outer_args = [], []
+    for f in w["free"]:
+        if f["where"] in ("shadow", "outer-shadow"):
+            lines.append(f"{f['name']} = {py_value_repr(f['kind'], f['other'])}")
+        if f["where"] == "global":
+            lines.append(f"{f['name']} = {py_value_repr(f['kind'], f['value'])}")
+        if f["where"] in ("closure", "shadow"):
+            inner_args.append(f)
+        if f["where"] in ("outer", "outer-shadow"):
+            outer_args.append(f)
+    ind = "    "
+    call_in = ", ".join(py_value_repr(f["kind"], f["value"]) for f in inner_args)
+    call_out = ", ".join(py_value_repr(f["kind"], f["value"]) for f in outer_args)
+    if w["levels"] == 1:
+        lines.append(f"def _mk_{name}({', '.join(f['name'] for f in inner_args)}):")
+        lines += [ind + ln for ln in m["src"].rstrip("\n").split("\n")]
+        lines.append(f"{ind}return {name}")
+        lines.append(f"{name} = _mk_{name}({call_in})")
+    else:
+        lines.append(f"def _mk_{name}({', '.join(f['name'] for f in outer_args)}):")
+        lines.append(f"{ind}def _mk2_{name}({', '.join(f['name'] for f in inner_args)}):")
+        lines += [ind * 2 + ln for ln in m["src"].rstrip("\n").split("\n")]
+        lines.append(f"{ind * 2}return {name}")
+        lines.append(f"{ind}return _mk2_{name}({call_in})")
+        lines.append(f"{name} = _mk_{name}({call_out})")
+    return "\n".join(lines) + "\n"
+
+
+def free_env(m: dict) -> dict:
+    """name -> value by Python scoping (an enclosing function's variable hides a module global)."""
+    w = m.get("wrap")
+    return {f["name"]: free_value(f["kind"], f["value"]) for f in w["free"]} if w else {}
+
+
+def lean_env(m: dict):
+    """(closure, globals) association lists of JSON values for the Lean model (it resolves the order itself)."""
+    w = m.get("wrap")
+    if not w:
+        return None
+    closure, globs = [], []
+    for f in w["free"]:
+        if f["where"] in ("closure", "shadow", "outer", "outer-shadow"):
+            closure.append((f["name"], f["kind"], f["value"]))
+        if f["where"] in ("shadow", "outer-shadow"):
+            globs.append((f["name"], f["kind"], f["other"]))
+        if f["where"] == "global":
+            globs.append((f["name"], f["kind"], f["value"]))
+    return closure, globs
+
+
+# =========================================================================== two opset versions in one function
+#
+# Property text: refused at decoration time or translated faithfully.  Softmax / LogSoftmax changed meaning between
+# opset 11 (coerce to 2-D at axis, default 1) and opset 13 (along axis, default -1) without a signature change; a
+# function that takes one of them from an older opset object than `default_opset` must be refused — or, if it is
+# accepted, the graph must still compute what eager mode (which runs each op at its own version) computes.
+
+
+def mixed_opset_program(rng, name: str) -> dict:
+    old = rng.choice(["opset11", "opset12", "opset11"])
+    sm = rng.choice(["Softmax", "LogSoftmax"])
+    which = rng.random()
+    alias = old if which < 0.6 else "op"
+    kwargs = "" if rng.random() < 0.7 else f", axis={rng.choice([1, 2, -1])}"
+    pre = rng.choice(["y = op.Add(A, A)", "y = (A * 0.5)", "y = op.Neg(A)"])
+    body = [pre]
+    if rng.random() < 0.4:
+        body += ["if (op.ReduceSum(y, keepdims=0) > 1.0):", f"    z = {alias}.{sm}(y{kwargs})", "else:",
+                 f"    z = op.Relu(y)"]
+    else:
+        body.append(f"z = {alias}.{sm}(y{kwargs})")
+    body.append(rng.choice(["return z", "return op.Add(z, A)"]))
+    src = "@script(default_opset=op)\n" + f"def {name}(A: FLOAT[2,3,4]):\n" + "".join(f"    {ln}\n" for ln in body)
+    feats = ["softmax", "mixed-opset-" + ("old" if alias != "op" else "same")]
+    return {"name": name, "shape": [2, 3, 4], "params": [["A", "T"]], "attrs": [], "rets": [["z", "T"]], "src": src,
+            "features": feats}
+
+
+# =========================================================================== inner loops whose trip count shrinks
+#
+# A variable that an inner loop only assigns and the enclosing loop reads afterwards must be carried by the
+# enclosing loop: in a later outer iteration the inner loop may run zero times.
+
+
+def shrinking_nest_program(rng, name: str) -> dict:
+    t0 = rng.choice(["t = op.Identity(A)", "t = (A * 1.0)", "t = op.Neg(A)"])
+    start = rng.choice(["rem = (n - 1)", "rem = op.Identity(n)", "rem = (n - 2)"])
+    inner_rhs = rng.choice(["(A * 2.0)", "op.Add(A, 1.0)", "op.Add(acc, 1.0)", "op.Abs(A)"])
+    bound = rng.choice(["rem", "rem", "(n - i)", "(rem - 1)"])
+    inner = [f"for j in range({bound}):", f"    t = {inner_rhs}"]
+    if rng.random() < 0.3:
+        inner.append("    u = op.Add(t, 1.0)")
+        inner.append("    t = (u * 0.5)")
+    after = rng.choice(["acc = (acc + t)", "acc = op.Add(acc, t)", "acc = op.Sub(t, acc)"])
+    outer_body = inner + [after, "rem = (rem - 1)"]
+    if rng.random() < 0.3:
+        outer_body = ["acc = (acc * 1.0)"] + outer_body
+    body = [t0, "acc = (A * 0.0)", start]
+    if rng.random() < 0.25:
+        # the outer loop as a counter-driven while
+        body += ["cnt = op.Constant(value_int=0)", "go = (cnt < n)", "while go:"] + \
+            ["    " + ln.replace("(n - i)", "rem") for ln in outer_body] + ["    cnt = (cnt + 1)", "    go = (cnt < n)"]
+    else:
+        body += ["for i in range(n):"] + ["    " + ln for ln in outer_body]
+    rets = rng.choice([["acc"], ["acc", "t"]])
+    body.append("return " + ", ".join(rets))
+    src = "@script(default_opset=op)\n" + f"def {name}(A: FLOAT[3], n: INT64):\n" + "".join(f"    {ln}\n" for ln in body)
+    return {"name": name, "shape": [3], "params": [["A", "T"], ["n", "I"]], "attrs": [],
+            "rets": [[r, "T"] for r in rets], "src": src, "features": ["nested-loop", "inner-trip-count-shrinks"]}
